@@ -20,6 +20,8 @@ HEAVY = set(INSERTS) | {'remove', 'remove_subtree'}
 
 def weight(job):
     w = {0: 0.1, 1: 0.3, 2: 2, 3: 15, 4: 60, 5: 200, 6: 600}.get(job['N'], 1000)
+    if job.get('kind') in ('iter', 'pair', 'deiter'):
+        return {1: 0.1, 2: 0.3, 3: 1, 4: 8, 5: 140, 6: 300}.get(job['N'], 1000) * (3 if job['kind'] != 'iter' else 1)
     if job['op'] not in HEAVY: w *= 0.15
     if job.get('fix_t') is not None: w /= 4
     return w
@@ -55,9 +57,29 @@ def mutator_jobs(prop, tier):
     return jobs
 
 
-def plan(prop, tier):
-    jobs = mutator_jobs(prop, tier)
+def iter_jobs(prop, tier):
+    import iters
+    jobs = []
+    nmax = 4 if tier == 'quick' else 5
+    for N in range(1, nmax + 1):
+        if prop in ('C02', 'C09'):
+            for name in iters.FWD + iters.EDGE:
+                jobs.append({'kind': 'iter', 'name': name, 'op': name, 'N': N, 'cfg': 'dev', 'feat': 'std', 'props': [prop]})
+        if prop == 'C09':
+            jobs.append({'kind': 'pair', 'name': 'traverse_pair', 'op': 'traverse_pair', 'N': N, 'cfg': 'dev', 'feat': 'std', 'props': [prop]})
+        if prop == 'C10' and N <= (4 if tier == 'quick' else 5):
+            for name in iters.DE:
+                jobs.append({'kind': 'deiter', 'name': name, 'op': name + '_pulls', 'N': N, 'cfg': 'dev', 'feat': 'std', 'props': [prop]})
+    if tier == 'thorough' and prop in ('C02', 'C09'):
+        for name in ['ancestors', 'predecessors', 'preceding_siblings', 'following_siblings', 'children', 'reverse_children']:
+            jobs.append({'kind': 'iter', 'name': name, 'op': name, 'N': 6, 'cfg': 'dev', 'feat': 'std', 'props': [prop]})
     return jobs
 
 
-CLAIMED = ['C01', 'C02', 'C03', 'C04', 'C05', 'C06', 'C07', 'C08', 'C12']
+def plan(prop, tier):
+    jobs = mutator_jobs(prop, tier)
+    if prop in ('C02', 'C09', 'C10'): jobs += iter_jobs(prop, tier)
+    return jobs
+
+
+CLAIMED = ['C01', 'C02', 'C03', 'C04', 'C05', 'C06', 'C07', 'C08', 'C09', 'C10', 'C12']
